@@ -100,6 +100,8 @@ fn scalars() -> Vec<TyD> {
         scalar("wrapb", "WrapB", &["wrapb(#\"ab\")"], |_, v| format!("builtin.length_of_bytearray(unwrapb({v}))")),
         scalar("color", "Color", &["Green", "Red"], |_, v| format!("when {v} is {{\n      Red -> 0\n      Green -> 1\n      Blue -> 2\n    }}")),
         scalar("rec", "Rec", &["Rec { a: 1, b: #\"ab\" }"], |_, v| format!("{v}.a + builtin.length_of_bytearray({v}.b)")),
+        // a FUNCTION type: never convertible to or from Data, whatever generic code it flows through
+        scalar("func", "fn(Int) -> Int", &["fn(n: Int) { n + 1 }"], |_, v| format!("{v}(41)")),
         scalar("multi", "Multi", &["B(True, #\"ab\")", "A(3)", "C"], |_, v| {
             format!("when {v} is {{\n      A(i) -> i\n      B(c, bs) ->\n        if c {{\n          builtin.length_of_bytearray(bs)\n        }} else {{\n          0\n        }}\n      C -> 7\n    }}")
         }),
@@ -140,16 +142,18 @@ pub fn universe() -> Vec<TyD> {
     let s = scalars();
     let mut u = s.clone();
     for e in &s {
-        if e.short == "string" {
-            continue; // String has no Data representation: containers of it are not first-class
+        if e.short == "string" || e.short == "func" {
+            continue; // no Data representation: containers of it are not first-class
         }
         u.extend(containers(e));
     }
     u
 }
 
-const CONTEXTS: [&str; 15] =
-    ["let", "expect", "call", "return", "alt", "alt-rev", "list", "if", "generic", "field", "data-roundtrip", "fn-binding", "expect-fn", "pipe", "destructure"];
+const CONTEXTS: [&str; 19] = [
+    "let", "expect", "call", "return", "alt", "alt-rev", "list", "if", "generic", "field", "data-roundtrip", "fn-binding", "expect-fn", "pipe",
+    "destructure", "record-update", "generic-update", "generic-upcast", "generic-trace",
+];
 
 /// the module for (context, T1 value flowing into a T2 slot); `None` when the context does not apply
 fn render(ctx: &str, t1: &TyD, t2: &TyD, k: usize) -> Option<String> {
@@ -179,6 +183,19 @@ fn render(ctx: &str, t1: &TyD, t2: &TyD, k: usize) -> Option<String> {
         "fn-binding" => format!("pub fn t() -> Int {{\n  let f: fn({ty2}) -> Int = fn(x: {ty1}) {{ {use1} }}\n  f({e2})\n}}\n"),
         "expect-fn" => format!("fn g1(x: {ty1}) -> Int {{\n  {use1}\n}}\n\npub fn t() -> Int {{\n  expect f: fn({ty2}) -> Int = g1\n  f({e2})\n}}\n"),
         "pipe" => format!("fn use2(x: {ty2}) -> Int {{\n  {use2}\n}}\n\npub fn t() -> Int {{\n  {e1} |> use2\n}}\n"),
+        // record UPDATE with the new value of type T1 in a T2 field
+        "record-update" => format!("pub type Holder {{\n  f: {ty2},\n  g: Int,\n}}\n\npub fn t() -> Int {{\n  let h0 = Holder {{ f: {e2}, g: 1 }}\n  let h = Holder {{ ..h0, f: {e1} }}\n  let x = h.f\n  h.g + {{\n    {use2}\n  }}\n}}\n"),
+        // the same inside a GENERIC function (the field type is a type parameter, instantiated at T2)
+        "generic-update" => format!("fn set(b: Box<a>, v: a) -> Box<a> {{\n  Box {{ ..b, inner: v }}\n}}\n\npub fn t() -> Int {{\n  let b: Box<{ty2}> = set(Box {{ inner: {e2} }}, {e1})\n  let x = b.inner\n  {use2}\n}}\n"),
+        // an implicit upcast to Data of a value of GENERIC type, instantiated at T1, cast back to T2
+        "generic-upcast" => {
+            if t2.ty == "String" {
+                return None;
+            }
+            format!("fn to_data(v: a) -> Data {{\n  let d: Data = v\n  d\n}}\n\npub fn t() -> Int {{\n  let d = to_data({e1})\n  expect x: {ty2} = d\n  {use2}\n}}\n")
+        }
+        // … and handed to a builtin that consumes Data
+        "generic-trace" => format!("fn size_of(v: a) -> Int {{\n  builtin.length_of_bytearray(builtin.serialise_data(v))\n}}\n\npub fn t() -> Int {{\n  size_of({e1}) + size_of({e2})\n}}\n"),
         "destructure" => format!("pub fn t() -> Int {{\n  let (x, n): ({ty2}, Int) = ({e1}, 1)\n  n + {{\n    {use2}\n  }}\n}}\n"),
         _ => return None,
     };
